@@ -202,3 +202,124 @@ func RunFaulty(name string, sc Scenario, mode Mode, plan FaultPlan, opts verifmc
 	}
 	return s, res
 }
+
+// RunFaultyOpen: a first life applies the scenario's batches without faults
+// and closes; a second life opens a writer while every directory operation
+// (list, load, remove, persist of the clean-up on open) may fail; whatever
+// happens — error, or success followed by a batch and a close — a third,
+// fault-free life must find every batch of the first life (and the second
+// life's batch if it was acknowledged).  Nothing may panic or hang.
+func RunFaultyOpen(name string, sc Scenario, opts verifmc.Options) (*verifmc.Sched, *explore.Result) {
+	res := &explore.Result{Counts: map[string]int64{}, Flags: map[string]bool{}}
+	dir := crashfs.New()
+	batches := sc.Clients[0]
+	m := harness.NewModel()
+	for _, b := range batches {
+		m.Apply(b)
+	}
+	first := m.Content()
+	extra := harness.BatchSpec{{Kind: 'U', ID: "z", Ver: "9"}}
+	m.Apply(extra)
+	second := m.Content()
+	enabled := false
+	injected := 0
+	var injLog []string
+	dir.Faults = func(op, kind string, id uint64) int {
+		if !enabled {
+			return 0
+		}
+		n := 2
+		if op == "persist" {
+			n = 4
+		}
+		c := verifmc.Choose(n, "fault:"+op)
+		if c != 0 {
+			injected++
+			injLog = append(injLog, fmt.Sprintf("%s%s:%d", op, kind, c))
+		}
+		return c
+	}
+	var failure string
+	s := verifmc.Run(opts, func() {
+		o := sc.Opts
+		o.AsyncError = func(error) {}
+		w, err := bluge.OpenWriter(harness.Config(dir, o))
+		if err != nil {
+			verifmc.Fail("open: " + err.Error())
+		}
+		for _, spec := range batches {
+			if err := w.Batch(harness.MakeBatch(spec)); err != nil {
+				verifmc.Fail("batch: " + err.Error())
+			}
+		}
+		if err := w.Close(); err != nil {
+			verifmc.Fail("close: " + err.Error())
+		}
+		// second life, with faults
+		enabled = true
+		acked := false
+		w2, err := bluge.OpenWriter(harness.Config(dir, o))
+		if err == nil {
+			res.Flags["second_open_succeeded"] = true
+			r, rerr := w2.Reader()
+			if rerr != nil {
+				verifmc.Fail("reader: " + rerr.Error())
+			}
+			c, oerr := harness.Observe(r)
+			_ = r.Close()
+			if oerr != nil || c != first {
+				verifmc.Fail(fmt.Sprintf("a writer opened under faults %v shows {%s} (%v), expected {%s}", injLog, c, oerr, first))
+			}
+			if berr := w2.Batch(harness.MakeBatch(extra)); berr == nil {
+				acked = true
+			}
+			enabled = false
+			if cerr := w2.Close(); cerr != nil {
+				verifmc.Fail("close of the second life: " + cerr.Error())
+			}
+		} else {
+			res.Flags["second_open_refused"] = true
+			if dir.Locked() {
+				verifmc.Fail(fmt.Sprintf("OpenWriter failed (%v) under faults %v and left the directory locked", err, injLog))
+			}
+		}
+		enabled = false
+		// third life, no faults
+		r3, err := bluge.OpenReader(harness.Config(dir, harness.Opts{}))
+		if err != nil {
+			verifmc.Fail(fmt.Sprintf("after a writer was opened under faults %v the directory no longer opens: %v", injLog, err))
+		}
+		c3, oerr := harness.Observe(r3)
+		_ = r3.Close()
+		if oerr != nil {
+			verifmc.Fail("third life: " + oerr.Error())
+		}
+		if acked && c3 != second {
+			failure = fmt.Sprintf("the second life's batch was acknowledged but the directory shows {%s} (faults %v)", c3, injLog)
+		}
+		if !acked && c3 != first && c3 != second {
+			failure = fmt.Sprintf("after a writer was opened under faults %v the directory shows {%s}, expected {%s}", injLog, c3, first)
+		}
+		// a refused OpenWriter leaves its analysis workers behind (they are started
+		// before anything can fail and nothing stops them)
+		verifmc.Exit()
+	})
+	res.Counts["faults_injected"] = int64(injected)
+	res.Notes = injLog
+	if s.Failure != "" {
+		if strings.HasPrefix(s.Failure, "horizon") {
+			res.Failure = fmt.Sprintf("did not come to rest within the step horizon after faults %v", injLog)
+		}
+		return s, res
+	}
+	if failure != "" {
+		res.Failure = failure
+		return s, res
+	}
+	if len(dir.Problems) > 0 {
+		res.Failure = "storage discipline: " + strings.Join(dir.Problems, "; ")
+		return s, res
+	}
+	res.Outcome = strings.Join(injLog, ",") + fmt.Sprint(res.Flags)
+	return s, res
+}
